@@ -1,18 +1,19 @@
 /-
-  C20 — the default `gozod.IsoTime()` (no options; types/iso.go → checks.ISOTime): validator `validate.ISOTime` matches
-  the package-level pattern `isoTimeRegex` of pkg/validate/validate.go, the check exports `regex.DefaultTime`.
+  C20 — the default `gozod.IsoTime()` (no options; types/iso.go → checks.ISOTime): since /repo 862300e the validator
+  `validate.ISOTime` matches `regex.DefaultTime`, the pattern the check exports.
 
-      c20_isotime_pattern : ∀ s, accepts pat_isotime s = (isoTimeOpt .any).run s                      (exported pattern = definition)
-      c20_isotime_full    (def, false on /repo HEAD)  ∀ s, accepts val_isotime s = (isoTimeOpt .any).run s
-      c20_isotime_partial : ∀ s, isoTimeComma.run s = false → accepts val_isotime s = (isoTimeOpt .any).run s
-      c20_isotime_witness : ¬ c20_isotime_full        ("12:30:00,5": validator's pattern takes a ',' before the fraction)
+      c20_isotime_pattern : ∀ s, accepts pat_isotime s = (isoTimeOpt .any).run s      (exported pattern = definition)
+      c20_isotime         : ∀ s, accepts val_isotime s = (isoTimeOpt .any).run s      (validator = definition)
+      c20_isotime_partial : ∀ s, isoTimeComma.run s = false → accepts val_isotime s = (isoTimeOpt .any).run s   (kept: it held before the fix too)
 
-  so the validator and the exported pattern disagree exactly on `isoTimeComma` = hh:mm:ss ',' digit+  (pending/C20-isotime-default.diff).
+  Before 862300e the validator matched a private pattern that also took a ',' before the fraction (`IsoTime().Parse("12:30:00,5")`
+  accepted, exported pattern refusing it): found by this check, fixed: line in known-findings.txt.
 -/
 import Gozod.Proofs.C20
 import Gozod.Model.FormatSpecTime
 import Gozod.Gen.Cert_isotime_pat
 import Gozod.Gen.Cert_isotime_partial
+import Gozod.Gen.Cert_isotime
 namespace Gozod.C20
 open Gozod Gozod.Re Gozod.Fmt
 
@@ -56,15 +57,12 @@ theorem isoTimeC_run : ∀ s, isoTimeC.run s = (isoTimeOpt .any).run s :=
 /-- the pattern the default IsoTime() exports is the definition -/
 theorem c20_isotime_pattern : ∀ s, accepts Gen.pat_isotime s = (isoTimeOpt .any).run s := bisim_sound_full _ _ Gen.cert_isotime_pat_ok
 
-/-- the full statement for the validator; false on /repo HEAD (true once pending/C20-isotime-default.diff lands) -/
-def c20_isotime_full : Prop := ∀ s, accepts Gen.val_isotime s = (isoTimeOpt .any).run s
+/-- the validator (regex.DefaultTime since the fix) is the definition, for all strings -/
+theorem c20_isotime : ∀ s, accepts Gen.val_isotime s = (isoTimeOpt .any).run s := bisim_sound_full _ _ Gen.cert_isotime_ok
 
 /-- outside hh:mm:ss ',' digit+ the validator's pattern is the definition -/
 theorem c20_isotime_partial : ∀ s, isoTimeComma.run s = false → accepts Gen.val_isotime s = (isoTimeOpt .any).run s := fun s h =>
   (bisim_sound _ _ Gen.cert_isotime_partial_ok s h).trans (isoTimeC_run s)
-
-theorem c20_isotime_witness : ¬ c20_isotime_full := fun h =>
-  absurd (h (b! "12:30:00,5")) (by decide +kernel)
 
 /-- validator and exported pattern disagree on the excluded region (and only there) -/
 theorem c20_isotime_validator_vs_pattern :
@@ -73,6 +71,6 @@ theorem c20_isotime_validator_vs_pattern :
 
 example : isoTimeComma.run (b! "12:30:00,5") = true ∧ isoTimeComma.run (b! "12:30:00.5") = false ∧ isoTimeComma.run (b! "12:30") = false ∧
     (isoTimeOpt .any).run (b! "12:30:00.5") = true ∧ (isoTimeOpt .any).run (b! "12:30") = true ∧ (isoTimeOpt .any).run (b! "12:30:00,5") = false ∧
-    accepts Gen.val_isotime (b! "12:30:00,5") = true ∧ accepts Gen.pat_isotime (b! "12:30:00,5") = false := by decide +kernel
+    accepts Gen.val_isotime (b! "12:30:00,5") = false ∧ accepts Gen.pat_isotime (b! "12:30:00,5") = false := by decide +kernel
 
 end Gozod.C20
